@@ -500,6 +500,82 @@ def handleConform (j : Json) : Except String Json := do
     return Json.mkObj [("ok", toJson (Conform.smgenRefuses (← getNat j "n") kinds.toList windows.toList))]
   | _ => throw s!"unknown conform method {m}"
 
+def getWithin (j : Json) : Except String (Option (Nat × Nat)) :=
+  match j.getObjVal? "within" with
+  | .ok (.arr a) => do
+    let len ← (a.getD 0 Json.null).getNat?
+    let pre ← (a.getD 1 Json.null).getNat?
+    return some (len, pre)
+  | _ => .ok none
+
+def parseDep (j : Json) : Except String Pipeline.Dep :=
+  match j with
+  | .obj _ => do return .before (← getNat j "before")
+  | _ => do return .var (← j.getNat?)
+
+def parsePConstraint (j : Json) : Except String Pipeline.PConstraint := do
+  let c ← getStr j "c"
+  match c with
+  | "cross" => return .cross
+  | "consistency" => return .consistency
+  | "sustain" => return .sustain
+  | "noop" => return .noop
+  | "exclude" => return .exclude (← getNat j "f") (← getNat j "l")
+  | "pin" => return .pin (← getInt j "idx") (← getNat j "f") (← getNat j "l") (← getWithin j) (← getNat j "sustain")
+  | "atmost" => return .atMost (← getNat j "k") (← getNat j "f") (← getNat j "l") (← getWithin j)
+  | "atleast" => return .atLeast (← getNat j "k") (← getNat j "f") (← getNat j "l") (← getWithin j)
+  | "exactlyinarow" => return .exactlyInARow (← getNat j "k") (← getNat j "f") (← getNat j "l") (← getWithin j)
+  | "exactlyk" => return .exactlyK (← getNat j "k") (← getNat j "f") (← getNat j "l") (← getWithin j)
+  | "sequential" => return .sequential (← getNat j "f") (← getNat j "preamble")
+  | "derivation" =>
+    let deps ← (← j.getObjValAs? (Array (Array Json)) "deps").toList.mapM (fun a => a.toList.mapM parseDep)
+    return .derivation (← getNat j "idx") deps (← getNat j "f") (← getInt j "start_delta")
+  | _ => throw s!"bad constraint {c}"
+
+def parsePCrossing (j : Json) : Except String Pipeline.PCrossing := do
+  let combos ← j.getObjValAs? (Array (Array Nat)) "combos"
+  return { factors := (← getNats j "factors"), combos := combos.toList.map (·.toList), weights := (← getNats j "weights"),
+           size := (← getNat j "size"), preamble := (← getNat j "preamble"), weight := (← getNat j "weight") }
+
+def parsePInput (j : Json) : Except String Pipeline.PInput := do
+  let fs ← (← j.getObjValAs? (Array Json) "factors").toList.mapM parseLFactor
+  let cs ← (← j.getObjValAs? (Array Json) "crossings").toList.mapM parsePCrossing
+  let ks ← (← j.getObjValAs? (Array Json) "constraints").toList.mapM parsePConstraint
+  return { layout := { factors := fs, trials := (← getNat j "trials") }, crossings := cs, constraints := ks,
+           postPreamble := (← getBool j "post_preamble"), commonPreamble := (← getNat j "common_preamble") }
+
+def handlePipeline (j : Json) : Except String Json := do
+  let p ← parsePInput j
+  let b := Pipeline.buildBackend p
+  match Pipeline.buildCnf p with
+  | .ok c => return Json.mkObj [("ok", Json.mkObj [("cnf", jCnf c), ("fresh", toJson b.fresh),
+      ("wf", toJson (Pipeline.checkWf p).1), ("states_defined", toJson (Pipeline.checkWf p).2.1),
+      ("input_ok", toJson (Pipeline.checkWf p).2.2),
+      ("reqs", Json.arr (b.reqs.map requestJson).toArray), ("cnfs", jCnf (Pipeline.cnfsJson b))])]
+  | .error e => return errJson e
+
+def parseEnumData (j : Json) : Except String RandomGen.EnumData := do
+  let valid ← j.getObjValAs? (Array (Array Nat)) "valid"
+  return { q := (← getNat j "q"), avail := (← getAvail j), simplePerm := (← getBool j "simple_perm"),
+           unweighted := (← getBool j "unweighted"), valid := valid.toList.map (·.toList),
+           indLevels := (← getNats j "ind_levels") }
+
+def handleRandomGen (j : Json) : Except String Json := do
+  let d ← parseEnumData j
+  let m ← getStr j "method"
+  match m with
+  | "trial_values" =>
+    let c : RandomGen.Components := { perm := (← getNat j "perm"), src := (← getNats j "src"), ind := (← getNats j "ind") }
+    return exceptJson (fun (tv : List RandomGen.TrialValue) =>
+      Json.arr (tv.map (fun v => Json.arr #[toJson v.inst, toJson v.source, jNats v.ind])).toArray)
+      (RandomGen.generateTrialValues d c (← getNat j "trial_count"))
+  | "count" =>
+    let n ← getNat j "first_n"
+    return exceptJson (fun (c : Nat) => Json.mkObj [("count", toJson c), ("wf", toJson (d.wf n && d.plainOnce)), ("crossings_shape", toJson (RandomGen.crossingsShape d n)),
+      ("combinations_shapes", jNats (RandomGen.shapes d)), ("independent_shapes", jNats (RandomGen.independentShapes d n))])
+      (RandomGen.countSolutions d n)
+  | _ => throw s!"unknown randomgen method {m}"
+
 def handle (j : Json) : Except String Json := do
   let op ← getStr j "op"
   match op with
@@ -513,6 +589,8 @@ def handle (j : Json) : Except String Json := do
   | "layout" => handleLayout j
   | "compile" => handleCompile j
   | "conform" => handleConform j
+  | "pipeline" => handlePipeline j
+  | "randomgen" => handleRandomGen j
   | _ => throw s!"unknown op {op}"
 
 partial def loop (h : IO.FS.Stream) (out : IO.FS.Stream) : IO Unit := do
